@@ -260,7 +260,7 @@ def check_extend(res, rng, tag):
     net = Network(reactions=rl)
     net.write(base / "in.naunet", "naunet")
     (base / "naunet_config.toml").write_text('[chemistry]\n[chemistry.symbol]\ngrain = "GRAIN"\nsurface = "#"\nbulk = "@"\n')
-    variant = rng.choice(["reduce", "remove", "dups", "depletion"])
+    variant = ["reduce", "remove", "dups", "depletion", "remove+dups", "reduce+dups"][tag % 6] if isinstance(tag, int) else rng.choice(["reduce", "remove", "dups"])
     args = ["extend", "in.naunet", "out.naunet"]
     if variant == "reduce":
         args.append("--reduce-by-species=H,H2,C,CH")
@@ -271,6 +271,13 @@ def check_extend(res, rng, tag):
     elif variant == "dups":
         args.append("--remove-duplicate")
         want = [(["H", "H"], ["H2"]), (["C", "H2"], ["CH", "H"]), (["C", "O"], ["CO"]), (["CO", "H"], ["C", "OH"])]
+    elif variant == "remove+dups":
+        # reactions are removed before the duplicate's position: the duplicate search must see the list it edits
+        args += ["--remove-species=H2", "--remove-duplicate"]
+        want = [(["C", "O"], ["CO"]), (["CO", "H"], ["C", "OH"])]
+    elif variant == "reduce+dups":
+        args += ["--reduce-by-species=C,O,CO,H,OH", "--remove-duplicate"]
+        want = [(["C", "O"], ["CO"]), (["CO", "H"], ["C", "OH"])]
     else:
         args += ["--remove-species=CO", "--append-depletion"]
         want = [(["H", "H"], ["H2"]), (["C", "H2"], ["CH", "H"])] + [([s], ["#" + s]) for s in ("C", "CH", "H", "H2")]
